@@ -575,6 +575,40 @@ def inline_helper(prog, n, depth=0):
     return r
 
 
+def inline_all(prog, node, depth=0, keep=()):
+    """the expression with every call of a straight-line workspace helper replaced by the helper's returned expression (arguments bound), bottom-up,
+    and projections of struct literals reduced (`SinCos::of(x).sin` -> sind(x))"""
+    from .exprs import mkproj
+    n = node
+    k = n[0]
+    if depth > 8:
+        return n
+    if k == "proj":
+        base = inline_all(prog, n[1], depth, keep)
+        b = strip(base)
+        if b[0] == "agg" and n[2] and not n[2][0].startswith(("@", "[")) and n[2][0].lstrip(".") in b[2]:
+            fld = b[3][b[2].index(n[2][0].lstrip("."))]
+            return inline_all(prog, mkproj(fld, n[2][1:]) if len(n[2]) > 1 else fld, depth + 1, keep)
+        return mkproj(base, n[2])
+    if k == "bin":
+        return ("bin", n[1], inline_all(prog, n[2], depth, keep), inline_all(prog, n[3], depth, keep))
+    if k == "un":
+        return ("un", n[1], inline_all(prog, n[2], depth, keep))
+    if k == "cast":
+        return ("cast", inline_all(prog, n[1], depth, keep), n[2])
+    if k == "agg":
+        return ("agg", n[1], n[2], tuple(inline_all(prog, a, depth, keep) for a in n[3]))
+    if k == "call":
+        m = ("call", n[1], tuple(inline_all(prog, a, depth, keep) for a in n[2]), n[3])
+        if short_callee(n[1]) in keep:
+            return m
+        inl = inline_helper(prog, m)
+        if inl is not None:
+            return inline_all(prog, inl, depth + 1, keep)
+        return m
+    return n
+
+
 # --------------------------------------------------------------------------- scope instances across helper functions
 
 def scope_instances(prog, root_fn, follow, maxdepth=4):
